@@ -865,6 +865,33 @@ def rule_incomplete_signatures(chk, prog, tier):
     r.exhaustive = True
 
 
+# ------------------------------------------------------------------ C10.o function specifiers / thread_local against the declared kind
+
+def rule_specifier_kind(chk, prog, tier):
+    r = chk.rule('C10.o', 'inline (and _Noreturn) may only appear in the declaration of a function, thread_local only in the declaration of an object: every other combination of specifiers with the kind of the declared identifier is diagnosed, the valid ones are accepted',
+                 floor=30, oracle='C11 6.7.4p1, 6.7.1p3-4')
+    from props import c09
+    models = c09.decl_models(prog, None)
+    decl_fn = prog.require_func('decl', 'decl.c'); flush_fn = prog.require_func('emittentativedefns', 'decl.c')
+    for kind in ('obj', 'func'):
+        for scope in ('file', 'block'):
+            for sc in ((), ('static',), ('extern',), ('tl',), ('static', 'tl'), ('extern', 'tl')):
+                for inline in (False, True):
+                    if scope == 'block' and sc == ('tl',): continue                       # diagnosed for another reason (6.7.1p3), covered by C09
+                    if kind == 'func' and scope == 'block' and 'static' in sc: continue     # 6.7.1p7, covered by C09
+                    hist = [c09.D(kind, scope, sc, inline=inline)]
+                    try:
+                        steps, final, ik = c09.run_history(prog, models, hist, decl_fn, flush_fn)
+                        outcome = steps[0][0]
+                    except AnalysisBroken as x:
+                        outcome = 'broken: %s' % str(x)[-160:]
+                    bad = (kind == 'obj' and inline) or (kind == 'func' and 'tl' in sc)
+                    key = 'specifier-kind:[%s] %s%s %s' % (scope, ' '.join(sc) or '-', ' inline' if inline else '', 'int x' if kind == 'obj' else 'int x(void)')
+                    if bad: r.instance(outcome.startswith('diag'), key, 'decl.c:decl', 'must be diagnosed; got %s' % outcome)
+                    else: r.instance(outcome == 'ok', key, 'decl.c:decl', 'valid declaration; got %s' % outcome)
+    r.exhaustive = True
+
+
 def run(chk, tier):
     from props import c01f
     prog = facts.programs()['cproc-qbe']
@@ -885,5 +912,6 @@ def run(chk, tier):
     chk.guard('C10.l', lambda: rule_subscript(chk, prog, tier))
     chk.guard('C10.m', lambda: rule_incdec(chk, prog, tier))
     chk.guard('C10.n', lambda: rule_incomplete_signatures(chk, prog, tier))
+    chk.guard('C10.o', lambda: rule_specifier_kind(chk, prog, tier))
     from props import c09
     chk.guard('C09.f', lambda: c09.rule_redecl_types(chk, prog, tier))
